@@ -49,6 +49,7 @@ func TestWalker(t *testing.T) {
 	rapid.Check(t, func(rt *rapid.T) {
 		revisit := rapid.Bool().Draw(rt, "revisit")
 		h := newHist(check, fmt.Sprintf("revisit=%v", revisit))
+		defer h.guard(rt)
 		var w *walker.Walker[int]
 		if revisit {
 			w = walker.New[int](true)
